@@ -173,7 +173,7 @@ CLAIMS = {
                 'the block QR / SVD and the sign of every stored label agree with the sparsity rule of the object; labels of '
                 'products and sums are ordered like the merged legs / blocks; new objects own their charge vectors; the constructors '
                 'mask every site with the labels of that site (no value carried from site to site).  The induction over histories additionally '
-                'relies on the per-operation runtime asserts; numerical vanishing of blocks is not decided.',
+                'relies on the per-operation runtime asserts; numerical vanishing of blocks is not decided.  The quantum-number helpers every sparsity rule takes for granted are checked themselves: qnumber_outer_sum is a left fold of np.add.outer over the lists in order, qnumber_flatten flattens in row-major order, is_qsparse is an existential reduction (never a sum of signed charges).',
         'design_ref': 'DESIGN.md 4.8, 4.3, 4.4, 5 (C02)',
         'note': TRUST + '; class invariant (X.qd ndarray, X.qD list of ndarray) used for loads is what the stores establish',
     },
